@@ -43,5 +43,6 @@ RULE += ' Every returned target portfolio is overwritten by the caller (quantity
 RULE += ' 40% of the later calls of a long-only sizer follow a re-assignment of sizer.cash_buffer_percentage (documented as modifiable), which stays in force.'
 RULE += ' Round 11: after the sizer has served a later instant it is asked again inside the leading gap (must raise again); two CSV sources over one directory restricted to symbol lists (one often empty): an asset given to no source is rejected, the others are sized at the price of the source they were given to.'
 RULE += ' Round 12: the unserved file of the partition check is named CC, AAX or BB.L (its name may begin with a served symbol).'
+RULE += ' Round 13: the CSV-gap script holds a third asset that sorts before the unpriced one and doubles daily; the sizes returned after calls refused inside the gap are judged against the budget.'
 ASSUMPTIONS = ['total fee rate <= 100% (above it every after-fee budget is negative)',
                'weights whose sum is within 1e-8 of zero are used unscaled, as the code documents']
